@@ -5,6 +5,7 @@ use std::io::{BufRead, Write};
 
 mod stack;
 mod prog;
+mod gram;
 
 fn main() {
     let args: Vec<String> = std::env::args().collect();
@@ -23,6 +24,18 @@ fn main() {
             for line in stdin.lock().lines() {
                 let line = line.unwrap();
                 writeln!(out, "{}", stack::step(&line)).unwrap();
+            }
+        }
+        "grammar" => {
+            for line in stdin.lock().lines() {
+                let line = line.unwrap();
+                writeln!(out, "{}", gram::front(&line)).unwrap();
+            }
+        }
+        "vm" => {
+            for line in stdin.lock().lines() {
+                let line = line.unwrap();
+                writeln!(out, "{}", gram::vm(&line)).unwrap();
             }
         }
         "prog" => {
